@@ -32,6 +32,21 @@ Definition chk (c : call) (m : machine) : bool :=
     | Some o => match get m o with Some x => is_freed x && is_moved x | None => false end
     | None => true
     end
+  | KCmd self (CDowngrade l w) =>
+    let m2 := (wresolve self w (resolve self l m).1).1 in
+    match (resolve self l m).2 ≫= (fun r => read_loc r m2) with
+    | Some o => live_alloc m2 o
+    | None => true
+    end
+  | KCmd self (CRegister nd script c) =>
+    match (nresolve self nd m).2 with
+    | Some o =>
+      match get (nresolve self nd m).1 o ≫= o_cleaner with
+      | Some mo => match get (nresolve self nd m).1 mo with Some y => is_alloc y | None => false end
+      | None => true
+      end
+    | None => true
+    end
   | KDropCc o =>
     match get m o with
     | Some x => is_alloc x && (marked x || negb (h_rc (o_hdr x) =? 1) || is_live x)
@@ -52,8 +67,12 @@ Proof. reflexivity. Qed.
 Lemma chk_dl c s m : chk c (dl s m) = chk c m.
 Proof.
   destruct c as [self c| | | | | | | | | | | | | | |]; try reflexivity.
-  destruct c; try reflexivity. cbn [chk]. rewrite resolve_dl. cbn [fst snd].
-  destruct (resolve self l m).2; [|reflexivity]. rewrite read_loc_dl. reflexivity.
+  destruct c; try reflexivity; cbn [chk].
+  - rewrite resolve_dl. cbn [fst snd]. rewrite wresolve_dl. cbn [fst snd].
+    destruct (resolve self l m).2; cbn [mbind option_bind]; [|reflexivity]. rewrite read_loc_dl. reflexivity.
+  - rewrite resolve_dl. cbn [fst snd].
+    destruct (resolve self l m).2; [|reflexivity]. rewrite read_loc_dl. reflexivity.
+  - rewrite nresolve_dl. cbn [fst snd]. reflexivity.
 Qed.
 
 Section Ok.
@@ -71,6 +90,27 @@ Section Ok.
     intros Hpre _. destruct c as [self c| | | o | | | | | | | | | L rest any old_f | L rest old_d | |]; try reflexivity.
     - (* commands *)
       destruct c; try reflexivity.
+      + (* downgrade *)
+        rewrite Pre_nc in Hpre by reflexivity. destruct Hpre as (Hnb & HI & Hs). cbn [own_of app] in HI. cbn [chk].
+        assert (Hw : self = None \/ self_good m self \/ self_dropping m self).
+        { destruct (self_ok_cases E self _ m Hs) as [->|[Hg|[_ Hd]]]; auto. }
+        assert (Hcase : loc_no_self l = true \/ self_good m self \/ (self = None /\ exists j, l = LFS j)).
+        { destruct (self_ok_cases E self _ m Hs) as [->|[Hg|[Hn _]]].
+          - destruct l; auto. right; right. eauto.
+          - auto.
+          - cbn in Hn. rewrite andb_true_r in Hn. auto. }
+        assert (Hres : exists ro, resolve self l m = (m, ro) /\ forall r t, ro = Some r -> read_loc r m = Some t -> good_h m t).
+        { destruct Hcase as [Hc|[Hc|(-> & j & ->)]].
+          - destruct (resolve_ok K b E [] m self l HI (or_introl Hc)) as (ro & Hro & Hg). exists ro. split; [exact Hro|].
+            intros r t Hr. destruct (Hg r Hr) as (_ & _ & Hgg). apply Hgg.
+          - destruct (resolve_ok K b E [] m self l HI (or_intror Hc)) as (ro & Hro & Hg). exists ro. split; [exact Hro|].
+            intros r t Hr. destruct (Hg r Hr) as (_ & _ & Hgg). apply Hgg.
+          - exists None. split; [reflexivity | discriminate]. }
+        destruct Hres as (ro & -> & Hg). cbn [fst snd].
+        destruct (wresolve_ok K b E [] m self w HI Hw) as (rwo & -> & _). cbn [fst snd].
+        destruct ro as [r|]; cbn [mbind option_bind]; [|reflexivity].
+        destruct (read_loc r m) as [o|] eqn:Hrd; [|reflexivity].
+        destruct (Hg r o eq_refl Hrd) as (x & Hx & Hb & Hv & _). unfold live_alloc, is_live, is_alloc. rewrite Hx, Hb, Hv. reflexivity.
       + (* try_unwrap *)
         rewrite Pre_nc in Hpre by reflexivity. destruct Hpre as (Hnb & HI & Hs). cbn [own_of app] in HI. cbn [chk].
         assert (Hcase : loc_no_self l = true \/ self_good m self \/ (self = None /\ exists j, l = LFS j)).
@@ -93,6 +133,23 @@ Section Ok.
         destruct (values m !! v) as [[o|]|] eqn:Ev; cbn [mjoin option_join]; try reflexivity.
         destruct (sv_values _ _ _ _ _ HI v o Ev) as ((x & Hx & Hb & Hv) & _).
         rewrite Hx. unfold is_freed, is_moved. rewrite Hb, Hv. reflexivity.
+      + (* register *)
+        rewrite Pre_nc in Hpre by reflexivity. destruct Hpre as (Hnb & HI & Hs). cbn [own_of app] in HI. cbn [chk].
+        assert (Hcase : node_no_self n = true \/ self_good m self \/ (self = None /\ n = NSelf)).
+        { destruct (self_ok_cases E self _ m Hs) as [->|[Hg|[Hn _]]].
+          - destruct n; auto.
+          - auto.
+          - cbn in Hn. rewrite andb_true_r in Hn. auto. }
+        assert (Hres : exists no, nresolve self n m = (m, no) /\ forall o, no = Some o -> good_h m o).
+        { destruct Hcase as [Hc|[Hc|(-> & ->)]].
+          - apply (nresolve_ok K b E [] m self n HI (or_introl Hc)).
+          - apply (nresolve_ok K b E [] m self n HI (or_intror Hc)).
+          - exists None. split; [reflexivity | discriminate]. }
+        destruct Hres as (no & -> & Hg). cbn [fst snd]. destruct no as [o|]; [|reflexivity].
+        destruct (get m o) as [x|] eqn:Hx; cbn [mbind option_bind]; [|reflexivity].
+        destruct (o_cleaner x) as [mo|] eqn:Hc; [|reflexivity].
+        destruct (sv_loc _ _ _ _ _ HI (Some o) true mo) as (y & Hy & Hb & _); [econstructor 4; eauto|].
+        rewrite Hy. unfold is_alloc. rewrite Hb. reflexivity.
     - (* Cc::drop *)
       rewrite Pre_nc in Hpre by reflexivity. destruct Hpre as (Hnb & HI & Hown). cbn [own_of app] in HI. cbn [chk].
       destruct (sv_E _ _ _ _ _ HI o) as (x & Hx & Hb); [left|]. rewrite Hx. unfold is_alloc. rewrite Hb. cbn [andb].
